@@ -193,7 +193,12 @@ def float_replay(m, ps, item, canary):
             h4 = m['layout'].getLayoutHandler(comm, {'v_parallel': [0, 2, 1, 3]}, list(nprocs), eta)
             h3 = m['layout'].getLayoutHandler(comm, {'v_parallel_2d': [0, 2, 1]}, list(nprocs), eta[:3])
             g = m['grid'].Grid(eta, [None, None, None, vb], h4, 'v_parallel', comm=comm)
-            rho = m['grid'].Grid(eta[:3], [None] * 3, h3, 'v_parallel_2d', comm=comm)
+            if cplx_storage:
+                # the solver's density grid: complex storage that still holds the modes of the previous step
+                rho = m['grid'].Grid(eta[:3], [None] * 3, h3, 'v_parallel_2d', comm=comm, dtype=np.complex128)
+                rho.getAllData()[...] = 3.0 + 4.0j
+            else:
+                rho = m['grid'].Grid(eta[:3], [None] * 3, h3, 'v_parallel_2d', comm=comm)
             dist.fill_grid(g, Fd)
             if mode.endswith('+hist'):
                 kn2 = m['spl'].make_knots(np.array([float(x) + 2.5 for x in vbreaks]), vdeg, False)
@@ -205,13 +210,18 @@ def float_replay(m, ps, item, canary):
             exp = dist.local_block(ref, L)
             err = float(np.max(np.abs(rho.getAllData() - exp))) if exp.size else 0.0
             return err
+        cplx_storage = False
         errs = simmpi.World(nranks).run(rankfn)
+        cplx_storage = True
+        errs_c = simmpi.World(nranks).run(rankfn)
     except Exception as e:
         return 'exception %s: %s' % (type(e).__name__, e)
     finally:
         numenv.enable()
     if max(errs) > 1e-9:
         return 'density differs from the exact velocity integral by %.3g on rank %d (grid %s)' % (max(errs), int(np.argmax(errs)), list(nprocs))
+    if max(errs_c) > 1e-9:
+        return 'density written into complex storage that held other data differs from the exact velocity integral by %.3g on rank %d (grid %s)' % (max(errs_c), int(np.argmax(errs_c)), list(nprocs))
     return None
 
 
